@@ -185,7 +185,8 @@ impl StateSpec {
             self.ints.iter().map(|x| x.to_string()).collect::<Vec<_>>().join(" "),
             self.floats.iter().map(|x| canon_bits(*x).to_string()).collect::<Vec<_>>().join(" "),
             self.bools.iter().map(|b| if *b { "t" } else { "f" }).collect::<Vec<_>>().join(" "),
-            self.inputs.iter().map(|(n, v)| match v {
+            // a name declared more than once is bound to the value declared last: the model is given the effective bindings
+            self.inputs.iter().enumerate().filter(|(i, (n, _))| !self.inputs[i + 1..].iter().any(|(m, _)| m == n)).map(|(_, x)| x).map(|(n, v)| match v {
                 LitV::I(x) => format!("{n}=I:{x}"),
                 LitV::F(x) => format!("{n}=F:{}", canon_bits(*x)),
                 LitV::B(x) => format!("{n}=B:{}", if *x { "t" } else { "f" }),
@@ -264,20 +265,17 @@ fn norm(s: &str) -> String {
     s.split(" | ").map(|p| p.trim().to_string()).collect::<Vec<_>>().join(" | ")
 }
 
-fn err_string(dbg: &str) -> String {
-    // Debug of PushInstructionError
-    if let Some(i) = dbg.find("Underflow") {
-        let nums: Vec<String> = dbg[i..].split(|c: char| !c.is_ascii_digit()).filter(|x| !x.is_empty()).map(|x| x.to_string()).collect();
-        return format!("underflow({},{})", nums.first().cloned().unwrap_or_default(), nums.get(1).cloned().unwrap_or_default());
+/// canonical form of a `PushInstructionError`, read off the public enum structure (not off Debug text)
+fn err_canon(e: &push::instruction::instruction_error::PushInstructionError) -> String {
+    use push::instruction::instruction_error::PushInstructionError as E;
+    use push::instruction::IntInstructionError;
+    use push::push_vm::stack::StackError;
+    match e {
+        E::StackError(StackError::Underflow { num_requested, num_present }) => format!("underflow({num_requested},{num_present})"),
+        E::StackError(StackError::Overflow { .. }) => "overflow".into(),
+        E::Int(IntInstructionError::Overflow { op }) => format!("intoverflow({op})"),
+        other => format!("other({other:?})"),
     }
-    if dbg.contains("Int(Overflow") || dbg.contains("Int(\n") {
-        // Int(Overflow { op: Add })
-        let op = dbg.split("op:").nth(1).unwrap_or("").trim();
-        let name: String = op.chars().take_while(|c| c.is_alphanumeric()).collect();
-        return format!("intoverflow({name})");
-    }
-    if dbg.contains("Overflow") { return "overflow".into(); }
-    format!("other({dbg})")
 }
 
 pub fn real_perform(spec: &StateSpec, p: &PushProgram) -> (String, bool /*err state == input*/) {
@@ -289,7 +287,7 @@ pub fn real_perform(spec: &StateSpec, p: &PushProgram) -> (String, bool /*err st
         Ok(Ok(s2)) => (format!("ok | {}", dump(&s2)), true),
         Ok(Err(e)) => {
             let kind = if e.is_recoverable() { "rec" } else { "fatal" };
-            let es = err_string(&format!("{:?}", e.error()));
+            let es = err_canon(e.error());
             let unchanged = *e.state() == before && dump(e.state()) == dump(&before);
             (format!("{kind}:{es} | {}", dump(e.state())), unchanged)
         }
@@ -304,9 +302,11 @@ pub fn real_run(spec: &StateSpec) -> (String, bool) {
         Err(_) => ("panic".into(), true),
         Ok(Ok(s2)) => (format!("ok | {}", dump(&s2)), sizes_ok(&s2)),
         Ok(Err(e)) => {
-            let d = format!("{e:?}");
-            let es = match d.rfind(", error: ") { Some(i) => err_string(&d[i..]), None => "other".into() };
-            let st: PushState = e.into_state();
+            // a FatalError has no accessor of its own for the error it carries; as the `Fatal` variant of the
+            // public error enum it has (no dependence on the Debug text of private fields)
+            let wrapped = push::error::Error::Fatal(e);
+            let es = err_canon(wrapped.error());
+            let st: PushState = wrapped.into_state();
             (format!("fatal:{es} | {}", dump(&st)), sizes_ok(&st))
         }
     }
@@ -709,7 +709,8 @@ pub fn run_run(cfg: &Cfg) -> Report {
             max_steps: steps, exec_max: em, int_max: im, float_max: fm, bool_max: bm,
             exec: program, ints, floats: floats_v, bools,
             // `X` and `xy` differ from `x` only in letter case / by a suffix and are bound to values of other types
-            inputs: vec![("x".into(), LitV::I(*g.pick(&INTS))), ("y".into(), LitV::F(*g.pick(&fl))), ("z".into(), LitV::B(g.chance(1, 2))),
+            // `x` is declared twice, first with a value of another type: the declaration made last is the one in effect
+            inputs: vec![("x".into(), LitV::F(*g.pick(&fl))), ("x".into(), LitV::I(*g.pick(&INTS))), ("y".into(), LitV::F(*g.pick(&fl))), ("z".into(), LitV::B(g.chance(1, 2))),
                          ("X".into(), LitV::B(g.chance(1, 2))), ("xy".into(), LitV::F(*g.pick(&fl)))],
         };
         // the configured limit, plus smaller limits (intermediate states of the same run)
